@@ -61,4 +61,10 @@ MUTANTS = [
 """),
     F("C11", "member value taken from the host's socket module", B, "    MSG_PEEK = 0x2\n", "    MSG_PEEK = socket.MSG_PEEK\n", "R1"),
     N("C11", "member value written as a shift", B, "    MSG_PEEK = 0x2\n", "    MSG_PEEK = 1 << 1\n"),
+    F("C11", "the mode word is cut to the permission bits before the file type is looked for", B,
+      "    return BscFchmod(events, args[0], serialize_stat_flags(args[1]), serialize_result(events[-1]))",
+      "    return BscFchmod(events, args[0], serialize_stat_flags(args[1] & 0o7777), serialize_result(events[-1]))", "R7"),
+    N("C11", "the mode word is cut to 32 bits", B,
+      "    return BscFchmod(events, args[0], serialize_stat_flags(args[1]), serialize_result(events[-1]))",
+      "    return BscFchmod(events, args[0], serialize_stat_flags(args[1] & 0xffffffff), serialize_result(events[-1]))"),
 ]
